@@ -7,7 +7,7 @@
    operations; Apply) on any lines in any order, SaveAutofixChanges, the
    executable-bit check; [wf_groups] says that the logical lines are a partition
    of the physical lines of the file (any grouping into continuation lines). *)
-From PV Require Import Lib.Bytes Spec.ApplyLog Model.Autofix Proofs.ApplyLog Proofs.Autofix.
+From PV Require Import Lib.Bytes Spec.ApplyLog Model.Autofix Proofs.ApplyLog Proofs.Autofix Proofs.AutofixViews.
 Open Scope Z_scope.
 
 (* what SaveAutofixChanges writes for the file is consistent with the AUTOFIX lines
@@ -57,6 +57,30 @@ Theorem C03_untouched_preserved :
       line_bytes l = l_raw l.
 Proof. exact untouched_preserved. Qed.
 Print Assumptions C03_untouched_preserved.
+
+(* several views of one file, serially: the second view is loaded from what the first
+   one saved (its line numbers are those of the intermediate file); the final bytes
+   are consistent with the concatenated log, with one save-and-load-again point *)
+Theorem C03_multi_view_serial :
+  forall o file content groupsA evsA stA groupsB evsB stB,
+    o_autofix o = true ->
+    wf_groups content groupsA -> Forall no_sort_event evsA ->
+    view_run o file content groupsA evsA = Ok stA ->
+    let mid := view_disk file content stA in
+    wf_groups mid groupsB -> Forall no_sort_event evsB ->
+    view_run o file mid groupsB evsB = Ok stB ->
+    entries_of file (s_log stA) <> [] -> entries_of file (s_log stB) <> [] ->
+    consistent_hist 1 content (entries_of file (s_log stA) ++ entries_of file (s_log stB))
+                    (view_disk file mid stB) = true.
+Proof. exact multi_view_serial. Qed.
+Print Assumptions C03_multi_view_serial.
+
+(* interleaved views (both loaded from the same bytes, saved one after the other):
+   the full statement is FALSE of the model -- the first view's update is lost.
+   Whether pkglint ever interleaves views is checked on real runs (docs/C03.md). *)
+Theorem C03_multi_view_interleaved_refuted : ~ multi_view_interleaved_full.
+Proof. exact multi_view_interleaved_refuted. Qed.
+Print Assumptions C03_multi_view_interleaved_refuted.
 
 (* non-vacuity: a file with a continuation line, two transactions (several operations
    on one line, a deletion), a save; the hypotheses hold, the run succeeds, three
